@@ -12,10 +12,12 @@ import (
 	"io"
 	"math/rand"
 	"os"
+	"os/signal"
 	"path/filepath"
 	"strings"
 	"sync"
 	"sync/atomic"
+	"syscall"
 	"time"
 
 	"github.com/hashicorp/eventlogger"
@@ -37,6 +39,7 @@ type Vec struct {
 	Exp struct {
 		OK      bool     `json:"ok"`
 		Written bool     `json:"written"`
+		Retried bool     `json:"retried"`
 		Allowed []string `json:"allowed"`
 		By      int      `json:"by"`
 	} `json:"exp"`
@@ -233,6 +236,97 @@ func runWriterVec(rep *Report, v *Vec, callers int, rng *rand.Rand) {
 	}
 }
 
+// runFileShort: the file takes only the first half of a record (RLIMIT_FSIZE), so the first write is partial and fails;
+// FileSink reopens its file and writes the record once more. Process may report the error, or - when the second attempt
+// succeeds - success; in that case some file holds the record whole, once. Records acknowledged before and after are
+// in the files exactly once.
+func runFileShort(rep *Report, v *Vec, variant string, rng *rand.Rand) {
+	var old syscall.Rlimit
+	if err := syscall.Getrlimit(syscall.RLIMIT_FSIZE, &old); err != nil {
+		return
+	}
+	signal.Ignore(syscall.SIGXFSZ)
+	rep.Runs++
+	eff := v.V.Conf
+	if eff == "" {
+		eff = "json"
+	}
+	dir, _ := os.MkdirTemp("", "verif-skshort-")
+	defer os.RemoveAll(dir)
+	fsk := &eventlogger.FileSink{Path: dir, FileName: "out.log", Format: v.V.Conf}
+	switch variant {
+	case "rotating":
+		fsk.MaxBytes = 1 << 20
+	case "toor":
+		fsk.MaxBytes, fsk.TimestampOnlyOnRotate = 1<<20, true
+	}
+	var recs [][]byte
+	var acked []bool
+	build := func(i int) (*eventlogger.Event, []byte) {
+		e := &eventlogger.Event{Type: "t", CreatedAt: time.Now(), Formatted: map[string][]byte{}}
+		var mine []byte
+		for _, f := range v.V.Table {
+			b := fmtBytes(rng, f, i)
+			e.FormattedAs(f, b)
+			if f == eff {
+				mine = b
+			}
+		}
+		return e, mine
+	}
+	process := func(e *eventlogger.Event, mine []byte) bool {
+		out, err := fsk.Process(context.Background(), e)
+		recs = append(recs, mine)
+		acked = append(acked, err == nil && out == nil)
+		return err == nil
+	}
+	send := func(i int) bool { return process(build(i)) }
+	if !send(0) {
+		rep.mm(Mismatch{What: "file sink (" + variant + "): first write", Vector: v.V, Expected: "ok", Observed: "error"})
+		return
+	}
+	ents, _ := os.ReadDir(dir)
+	if len(ents) != 1 {
+		return
+	}
+	st, err := os.Stat(filepath.Join(dir, ents[0].Name()))
+	if err != nil {
+		return
+	}
+	// the limit lets the first half of the next record in
+	e1, r1 := build(1)
+	limit := uint64(st.Size()) + uint64(len(r1))/2
+	if err := syscall.Setrlimit(syscall.RLIMIT_FSIZE, &syscall.Rlimit{Cur: limit, Max: old.Max}); err != nil {
+		return
+	}
+	process(e1, r1)
+	syscall.Setrlimit(syscall.RLIMIT_FSIZE, &old)
+	if !send(2) {
+		rep.mm(Mismatch{What: "file sink (" + variant + "): a write after the failed one, with room again", Vector: v.V, Expected: "ok", Observed: "error"})
+		return
+	}
+	var files [][]byte
+	ents, _ = os.ReadDir(dir)
+	for _, en := range ents {
+		b, _ := os.ReadFile(filepath.Join(dir, en.Name()))
+		files = append(files, b)
+	}
+	for i, r := range recs {
+		if !acked[i] {
+			continue
+		}
+		n := 0
+		for _, b := range files {
+			n += bytes.Count(b, r)
+		}
+		if n != 1 {
+			rep.mm(Mismatch{What: "file sink (" + variant + "), a write that the file took only in part, then a retry: acknowledged record present whole, once, in one file",
+				Vector: v.V, Expected: 1, Observed: fmt.Sprintf("record %d (%d bytes): %d whole occurrences in %d files; acknowledged: %v", i, len(r), n, len(files), acked)})
+			return
+		}
+	}
+}
+
 const unit = 70 * time.Millisecond
 
 func runChannelVec(rep *Report, v *Vec) {
@@ -386,6 +480,15 @@ func Run(file string, seed int64, concretisations int) (*Report, error) {
 		if v.T == "c" {
 			cvecs = append(cvecs, v)
 			continue
+		}
+		if v.V.Kind == "file" && v.V.Wb == "short" {
+			if v.Exp.Retried {
+				for _, variant := range []string{"rotating", "toor", "plain"} {
+					runFileShort(rep, v, variant, rng)
+				}
+				continue
+			}
+			v.V.Wb = "ok" // no bytes for the configured format: the write never happens
 		}
 		for c := 0; c < concretisations; c++ {
 			for _, callers := range []int{1, 4, 16} {
